@@ -88,6 +88,18 @@ def _run(ctx, ncases):
     if not np.allclose(d0.qvel.numpy()[0], r0.qvel, rtol=2e-3, atol=2e-3 * (1 + np.abs(r0.qvel).max())):
       acc.hit("baseline-mismatch-skipped")
       continue
+    # what a flag may change about contacts is WHICH geom pairs collide; how many points a deeply penetrating pair gets (e.g. parent
+    # and child geoms once filterparent is off) is the collision stage's business (C04) and changes the dynamics legitimately
+    nc_w = int(d.nacon.numpy()[0])
+    pairs_w = {tuple(sorted(map(int, g))) for g in d.contact.geom.numpy()[:nc_w]}
+    pairs_m = {tuple(sorted((int(c.geom1), int(c.geom2)))) for c in ref.contact}
+    if pairs_w != pairs_m:
+      acc.find(f"with flags disabled={flags}: colliding geom pairs differ from mj_step: only here {sorted(pairs_w - pairs_m)[:4]}, only MuJoCo {sorted(pairs_m - pairs_w)[:4]}", "collision_driver",
+               "flags-contact-pairs", xml=xml, flags=flags)
+      continue
+    if nc_w != int(ref.ncon):
+      acc.hit("contact-multiplicity-differs:dynamics-comparison-skipped")
+      continue
     for nm, a, b in (("qpos", d.qpos.numpy()[0], ref.qpos), ("qvel", d.qvel.numpy()[0], ref.qvel), ("sensordata", d.sensordata.numpy()[0], ref.sensordata)):
       scale = 1 + np.abs(b).max() if b.size else 1
       if b.size and not np.allclose(a, b, rtol=2e-3, atol=2e-3 * scale):
